@@ -879,6 +879,205 @@ def finish(prop, tier, seed, t0, cov, violations, known_lines, notes):
 EXTRA = {}          # properties with their own driver function (registered below)
 
 
+def obligations(cov, lean, ns):
+    shared = ()
+    thms = {t: ax for t, ax in lean["axioms"].items() if any(t.startswith("PFV.%s." % n) for n in ns)}
+    cov["obligations"] = len(thms) + len(lean["broken"])
+    cov["discharged"] = len(thms)
+    cov["checker_cmd"] = "cd /verif/lean && lake build PFV pfv-driver && lake env lean PFV/Audit.lean"
+    cov["theorems"] = sorted(thms)
+    cov["axioms_used"] = sorted({a for ax in thms.values() for a in ax})
+
+
+def check_c07(prop, tier, seed):
+    """determinism: same configuration + entropy => same bytes, across processes (fresh hash seeds, ASLR),
+    across 16 concurrent threads, in isolation vs inside a long-lived process; S3 ties fuzzer-bytes mode to a
+    model that has no hidden input at all."""
+    t0 = time.time()
+    cx = Ctx("C09", tier, seed)      # reuse stream plumbing (S3)
+    cx.prop = "C07"
+    cov = cx.cov
+    violations, known_lines, notes = [], [], []
+    with Lock():
+        lean = build_lean()
+        har = build_harness()
+    obligations(cov, lean, ["C07", "C18"])
+    if not har["ok"]:
+        p = write_replay(prop, "correspondence", dict(stream="harness-build", detail=har["msg"][-800:]))
+        return finish(prop, tier, seed, t0, cov, [(p, " no-failing-input-found")], known_lines, notes)
+    n = 600 if tier == "quick" else 12000
+    procs = 3 if tier == "quick" else 8
+    # (1) separate processes: every process gets new SipHash keys and a new address-space layout
+    outs = []
+    for k in range(procs):
+        args = ["oracle", "--cases", str(n), "--seed", str(seed * 97 + 5), "--profile", "default" if k % 2 == 0 else "default", "--unsafe", "mix"]
+        outs.append(harness_lines(args).split("\n"))
+    memo_runs = [harness_lines(["oracle", "--cases", "4", "--seed", str(seed + 3), "--profile", "memo", "--unsafe", "mix"]).split("\n") for _ in range(2)]
+    for a, b in zip(memo_runs[0], memo_runs[1]):
+        outs[0].append(a); outs[1].append(b)
+    base = outs[0]
+    seen = set()
+    for k in range(1, len(outs)):
+        for a, b in zip(base, outs[k]):
+            if not a.startswith("oracle "):
+                continue
+            cov["evaluations"] += 1
+            seen.add(hashlib.sha256(a.encode()).hexdigest())
+            if a != b:
+                cx.failing.append(("oracle", case_of(a), "two_processes_returned_different_bytes_for_the_same_configuration_and_entropy"))
+                break
+    cov["distinct_nontrivial"] = len(seen)
+    cov["processes_compared"] = procs
+    for a in base[:3]:
+        if a.startswith("oracle "):
+            cx.sample(dict(case=case_of(a)[:200], identical_in_processes=procs))
+    # (2) isolation: a case run alone in a fresh process vs inside the long-lived batch process
+    iso = 40 if tier == "quick" else 400
+    lines = [l for l in base if l.startswith("oracle ")]
+    rnd = random.Random(seed)
+    for l in rnd.sample(lines, min(iso, len(lines))):
+        alone = harness_lines(["case"] + case_of(l).split(" ")).strip()
+        cov["evaluations"] += 1
+        if toks(alone).get("result") != toks(l).get("result"):
+            cx.failing.append(("oracle", case_of(l), "result_inside_a_long-lived_process_differs_from_a_fresh_process"))
+            break
+    # (3) 16 threads generating concurrently
+    tl = harness_lines(["threads", "--cases", "300" if tier == "quick" else "3000", "--seed", str(seed + 11), "--threads", "16"])
+    cov["evaluations"] += 300 * 16 if tier == "quick" else 3000 * 16
+    for l in tl.split("\n"):
+        if l.startswith("threads MISMATCH"):
+            cx.failing.append(("threads", case_of(l), "concurrent_generation_differs_from_sequential:" + " ".join(l.split(" ")[-2:])))
+            break
+    cov["threads"] = 16
+    # (4) S3: fuzzer-bytes mode equals the model, which has no hidden input
+    try:
+        stream_s3(cx)
+    except Exception as e:
+        cx.corr.append(dict(stream="S3", count=1, first=str(e)[:400]))
+    cov["not_exhibited_by_the_model"] = ["OS randomness / wall clock / address dependence inside the compiled Rust is observed by the process, isolation and thread comparisons above, not proved absent",
+                                          "seeded (ChaCha8) mode is compared process-to-process; the model does not port ChaCha"]
+    cov["impl_vs_oracle_failures"] = len(cx.failing)
+    cov["model_vs_impl_disagreements"] = sum(c["count"] for c in cx.corr)
+    if cx.failing:
+        stream, cl, det = cx.failing[0]
+        p = write_replay(prop, "failing-input", dict(stream="oracle", case=cl, observed=det, required="identical bytes for identical configuration and entropy"))
+        violations.append((p, ""))
+    elif (not lean["ok"]) or cx.corr:
+        what = ([dict(kind="proof-obligation", broken=lean["broken"][:6])] if not lean["ok"] else []) + [dict(kind="correspondence", **c) for c in cx.corr]
+        p = write_replay(prop, "obligation", dict(no_longer_checks=what, note="no pair of runs with different bytes was found"))
+        violations.append((p, " no-failing-input-found"))
+    return finish(prop, tier, seed, t0, cov, violations, known_lines, notes)
+
+
+def check_c12(prop, tier, seed):
+    """reachability: (a) theorem C12.all_reachable over the translated tables (no dead guard); S1 ties the
+    guards; (b) for each (protocol, opcode) a default-settings seed whose output contains it, and for P>=4 a
+    framed and an unframed seed — cached witnesses first, then a search over a fixed seed range."""
+    t0 = time.time()
+    cx = Ctx("C17", tier, seed)
+    cx.prop = "C12"
+    cx.P = dict(PROPS["C17"], s1=None)
+    cov = cx.cov
+    violations, known_lines, notes = [], [], []
+    with Lock():
+        lean = build_lean()
+        har = build_harness()
+    obligations(cov, lean, ["C12", "Tables"])
+    if not har["ok"]:
+        p = write_replay(prop, "correspondence", dict(stream="harness-build", detail=har["msg"][-800:]))
+        return finish(prop, tier, seed, t0, cov, [(p, " no-failing-input-found")], known_lines, notes)
+    limit = 2000 if tier == "quick" else 50000
+    tables = {}
+    names = {}
+    for l in harness_lines(["tables"]).split("\n"):
+        t = l.split(" ")
+        if t[0] == "opcode":
+            names[t[2]] = t[1]
+        if t[0] == "table":
+            tables[int(t[1])] = [t[2][i:i + 2] for i in range(0, len(t[2]), 2)]
+    optin = {"Ext1", "Ext2", "Ext4", "NextBuffer", "ReadOnlyBuffer"}
+    need = {}            # (P, opname, ext) -> None / seed
+    for p_, ops in tables.items():
+        for b in ops:
+            nm = names[b]
+            need[(p_, nm, 1 if nm in optin else 0)] = None
+        if p_ >= 4:
+            need[(p_, "<framed>", 0)] = None
+            need[(p_, "<unframed>", 0)] = None
+    cpath = os.path.join(CORPUS, "c12_seeds.json")
+    cached = json.load(open(cpath)) if os.path.exists(cpath) else {}
+
+    def scan(lines):
+        for (req, v) in lines:
+            r = toks(req)
+            p_ = int(r["P"]); ext = int(r["ext"]); sd = int(r["mode"].split(":")[1])
+            cov["evaluations"] += 1
+            if v.get("gen") != "ok":
+                continue
+            present = {x.split(":")[0] for x in v.get("ops", "").split(",") if x}
+            present.add("<framed>" if v.get("framed") == "1" else "<unframed>")
+            for nm in present:
+                k = (p_, nm, ext)
+                if k in need and need[k] is None:
+                    need[k] = sd
+                k2 = (p_, nm, 0)
+                if ext == 1 and k2 in need and nm not in optin and need[k2] is None:
+                    pass
+    # cached witnesses first (grouped by seed)
+    todo = {}
+    for k in need:
+        sd = cached.get("%d/%s/%d" % k)
+        if sd is not None:
+            todo.setdefault((sd, k[2]), set()).add(k[0])
+    for (sd, ext), ps in sorted(todo.items()):
+        req = harness_lines(["seeds", "--from", str(sd), "--to", str(sd + 1), "--ext", str(ext), "--protos", ",".join(map(str, sorted(ps)))])
+        reqs = [l for l in req.split("\n") if l.startswith("oracle ")]
+        outs = [toks(l) for l in drive(req) if l.startswith("oracle ")]
+        scan(list(zip(reqs, outs)))
+    cov["from_cached_witness_seeds"] = sum(1 for v in need.values() if v is not None)
+    # search
+    step = 250
+    for ext in (0, 1):
+        lo = 0
+        while lo < limit and any(v is None for k, v in need.items() if k[2] == ext):
+            missing_p = sorted({k[0] for k, v in need.items() if v is None and k[2] == ext})
+            req = harness_lines(["seeds", "--from", str(lo), "--to", str(lo + step), "--ext", str(ext), "--protos", ",".join(map(str, missing_p))])
+            reqs = [l for l in req.split("\n") if l.startswith("oracle ")]
+            outs = [toks(l) for l in drive(req) if l.startswith("oracle ")]
+            scan(list(zip(reqs, outs)))
+            lo += step
+    missing = sorted(k for k, v in need.items() if v is None)
+    cov["pairs_required"] = len(need)
+    cov["pairs_witnessed"] = len(need) - len(missing)
+    cov["distinct_nontrivial"] = len(need) - len(missing)
+    cov["seed_range_searched"] = [0, limit]
+    cov["exhaustive"] = False
+    for k, v in list(need.items())[:3]:
+        cx.sample(dict(protocol=k[0], opcode=k[1], optins_enabled=bool(k[2]), witness_seed=v))
+    cov["witness_seeds"] = {"%d/%s/%d" % k: v for k, v in sorted(need.items()) if v is not None}
+    # the guards are tied to the code by S1
+    try:
+        stream_s1(cx)
+    except Exception as e:
+        cx.corr.append(dict(stream="S1", count=1, first=str(e)[:400]))
+    cov["model_vs_impl_disagreements"] = sum(c["count"] for c in cx.corr)
+    cov["impl_vs_oracle_failures"] = len(missing)
+    if missing:
+        p = write_replay(prop, "failing-input", dict(stream="seeds", case="default settings, seeds 0..%d" % limit,
+                         observed="no seed in the range produces: " + ", ".join("protocol %d %s%s" % (k[0], k[1], " (opt-ins on)" if k[2] else "") for k in missing[:12]),
+                         required="every opcode of the protocol's vocabulary occurs for some seed", missing=["%d/%s/%d" % k for k in missing]))
+        violations.append((p, ""))
+    elif (not lean["ok"]) or cx.corr:
+        what = ([dict(kind="proof-obligation", broken=lean["broken"][:6])] if not lean["ok"] else []) + [dict(kind="correspondence", **c) for c in cx.corr]
+        p = write_replay(prop, "obligation", dict(no_longer_checks=what, note="every opcode was still found for some seed"))
+        violations.append((p, " no-failing-input-found"))
+    return finish(prop, tier, seed, t0, cov, violations, known_lines, notes)
+
+
+EXTRA["C07"] = check_c07
+EXTRA["C12"] = check_c12
+
+
 def replay(path):
     body = json.load(open(path))
     prop = body["property"]
